@@ -20,10 +20,22 @@ namespace Ecal.Props.C17Facts
     for confinement it is the configured directory — it is reported as a remark, not refuted. -/
 theorem locator_roots_configured : Ecal.Gen.C17.refuted = [] := by decide
 
-/-- **resolve_opens_only_tested_path.** Among the calls reachable from `FileImportLocator.Resolve`, none
-    that touches the file system comes before the containment test, and none is handed the tested path
-    wrapped in / reassigned from a function that rewrites strings (`os.ExpandEnv`, `strings.*`,
-    `url.*Unescape`, …): this is what lets `resolve`'s `.opened q` stand for the only file access. -/
+/-- **resolve_opens_only_tested_path.** No other file access: among the calls reachable from
+    `FileImportLocator.Resolve` (helpers of the package followed with their call site), none that touches the file
+    system comes before the containment test or in the branch where it rejects, none is handed anything but the LOCAL
+    variable that was tested (not a package-level variable / field, not a string put together apart from it, not
+    the tested string rewritten by `os.ExpandEnv`, `strings.*`, `url.*Unescape`, …); `importRuntime.Eval` and the
+    functions it calls by name touch the file system not at all. This is what lets `resolve`'s `.opened q` stand
+    for the only file access. -/
 theorem resolve_opens_only_tested_path : Ecal.Gen.C17.openRefuted = [] := by decide
+
+/-- **import_facts_not_refuted.** The receiver of `Resolve` in `importRuntime.Eval` is not found to be anything but the
+    provider's configured locator, its argument not anything but `fmt.Sprint` of the path value, and the Root of the
+    locator built by `CreateRuntimeProvider` not anything but the configured directory value. (`none` — not
+    established — passes here and is reported in the evidence; the conditional theorem
+    `import_statement_confined` needs `some true`.) -/
+theorem import_facts_not_refuted :
+    Ecal.Gen.C17.receiverFact ≠ some false ∧ Ecal.Gen.C17.argumentFact ≠ some false ∧
+      Ecal.Gen.C17.toolRootFact ≠ some false := by decide
 
 end Ecal.Props.C17Facts
